@@ -135,6 +135,13 @@ impl Matcher {
                 day_end += 1;
             }
 
+            // Process splits/unsplits first: the day's trades are in post-split units, as in the
+            // date sort, the cost pre-pass and the 30-day look-ahead (docs/spec.md, "Split then
+            // same-day sell")
+            for tx in &transactions[i..day_end] {
+                self.process_corporate_action(tx)?;
+            }
+
             // Add buys for the day (apply cost offsets and future reservations)
             for (offset, tx) in transactions[i..day_end].iter().enumerate() {
                 if let Operation::Buy {
@@ -185,11 +192,6 @@ impl Matcher {
                 if matches!(tx.operation, Operation::Buy { .. }) {
                     self.move_buy_to_pool(tx)?;
                 }
-            }
-
-            // Process splits/unsplits
-            for tx in &transactions[i..day_end] {
-                self.process_corporate_action(tx)?;
             }
 
             i = day_end;
